@@ -135,7 +135,14 @@ impl Property for C07 {
                 res.log(&format!("{op} => {}", normalized(&eo)));
                 if let Outcome::Panic(p) = &eo {
                     if op.starts_with("(extract") {
-                        res.violation("extract-panic", format!("{op}: {p}"));
+                        // tag histories whose declared costs can saturate u64 (the recorded finding needs that)
+                        let saturating = case.ops.iter().any(|o| {
+                            o.split(":cost ").skip(1).any(|rest| {
+                                rest.split(|c: char| !c.is_ascii_digit()).next().and_then(|n| n.parse::<u64>().ok()).map(|n| n >= 1 << 60).unwrap_or(false)
+                            })
+                        });
+                        let tag = if saturating { " [history declares costs near u64::MAX]" } else { "" };
+                        res.violation("extract-panic", format!("{op}: {p}{tag}"));
                     } else {
                         res.inconclusive("engine panic outside extraction (C09 territory)");
                     }
